@@ -40,7 +40,8 @@ if not os.path.realpath(saml2_tophat.__file__).startswith(os.path.realpath(os.pa
 import xmlsec_model  # noqa: E402
 
 KEYNAMES = ['kIdp1', 'kIdp1b', 'kIdp2', 'kSp', 'kSpEnc1', 'kSpEnc2', 'kAttacker', 'kMd',
-            'kA', 'kB', 'kC', 'kA2', 'kB2', 'kC2']
+            'kA', 'kB', 'kC', 'kA2', 'kB2', 'kC2',
+            'kBexp']        # the key of kB under a certificate that expired in 2016
 KEYDIR = os.path.join(WORK, 'keys')
 
 
@@ -54,12 +55,17 @@ def ensure_keys():
         kf, cf = keyfile(name), certfile(name)
         if os.path.exists(kf) and os.path.exists(cf):
             continue
-        key = rsa.generate_private_key(public_exponent=65537, key_size=2048)
+        expired = name.endswith('exp')
+        if expired:
+            with open(keyfile(name[:-3]), 'rb') as f:
+                key = serialization.load_pem_private_key(f.read(), None)
+        else:
+            key = rsa.generate_private_key(public_exponent=65537, key_size=2048)
         subj = x509.Name([x509.NameAttribute(NameOID.COMMON_NAME, name)])
         cert = (x509.CertificateBuilder().subject_name(subj).issuer_name(subj)
                 .public_key(key.public_key()).serial_number(KEYNAMES.index(name) + 1)
                 .not_valid_before(_dt.datetime(2015, 1, 1))
-                .not_valid_after(_dt.datetime(2045, 1, 1))
+                .not_valid_after(_dt.datetime(2016, 1, 1) if expired else _dt.datetime(2045, 1, 1))
                 .sign(key, hashes.SHA256()))
         tmp = kf + '.tmp%d' % os.getpid()
         with open(tmp, 'wb') as f:
